@@ -260,15 +260,17 @@ class SymArray(np.ndarray):
 
     def __setitem__(self, key, value):
         if isinstance(key, np.ndarray) and key.dtype == object and _has_symbool(key):
-            # masked assignment with a symbolic mask: merge with If, no fork
+            # masked assignment with a symbolic mask: merge with If (no fork) when the value is a
+            # scalar or has the array's shape; otherwise (value laid out per selected element, as in
+            # `a[mask] += c`) the mask is concretised by forking
             base = self.view(np.ndarray)
             k = np.asarray(_base(key), dtype=object)
-            if k.shape != base.shape:
-                raise HarnessError("symbolic mask of different shape")
-            val = np.broadcast_to(np.asarray(_base(value), dtype=object), base.shape)
-            for idx in np.ndindex(*base.shape):
-                base[idx] = ite(k[idx], val[idx], base[idx])
-            return
+            v = np.asarray(_base(value), dtype=object)
+            if k.shape == base.shape and (v.ndim == 0 or v.shape == base.shape):
+                val = np.broadcast_to(v, base.shape)
+                for idx in np.ndindex(*base.shape):
+                    base[idx] = ite(k[idx], val[idx], base[idx])
+                return
         key = self._concretise_key(key)
         np.ndarray.__setitem__(self, key, _base(value))
 
